@@ -29,6 +29,7 @@ type Case struct {
 	Spelling string `json:"spelling,omitempty"` // create: how the outside input is spelled
 	Unsaved  bool   `json:"unsaved,omitempty"`  // par1: the hostile entry is not saved in the parity volume set
 	Empty    bool   `json:"empty,omitempty"`    // par1: the hostile entry declares a zero-length file
+	UniName  bool   `json:"uni_name,omitempty"`  // par2: the hostile name is carried by an (optional) Unicode Filename packet; the file description holds a lossy ASCII name
 	MainLast bool   `json:"main_last,omitempty"` // par2: the main packet comes after the file description and checksum packets in every file
 }
 
@@ -120,7 +121,33 @@ func check(c Case) (string, bool) {
 				}
 			}
 		}
+		var uni []par2ref.Packet
+		if c.UniName {
+			// the description of the hostile entry carries a lossy ASCII rendering; the real name travels in a Unicode Filename packet
+			for i := range set.Files {
+				if set.Files[i].Name == hostile {
+					var ty [16]byte
+					copy(ty[:], "PAR 2.0\x00UniFileN")
+					lossy := "lossy-\xe9-name.dat"
+					set.Files[i].Name = lossy
+					set.Files[i].ID = par2ref.FileID(set.Files[i].MD516k, set.Files[i].Length, []byte(lossy))
+					body := append(append([]byte{}, set.Files[i].ID[:]...), par2ref.Pad4(par1ref.UTF16LE(hostile))...)
+					uni = append(uni, par2ref.Packet{Type: ty, Body: body})
+				}
+			}
+			for i := range set.Files {
+				for j := i + 1; j < len(set.Files); j++ {
+					if par2ref.IDLess(set.Files[j].ID, set.Files[i].ID) {
+						set.Files[i], set.Files[j] = set.Files[j], set.Files[i]
+					}
+				}
+			}
+			for k := range uni {
+				uni[k].SetID = set.SetID()
+			}
+		}
 		crit := set.CriticalPackets()
+		crit = append(crit, uni...)
 		if c.Empty {
 			var kept []par2ref.Packet
 			for _, p := range crit {
@@ -263,6 +290,7 @@ var corpus = []string{
 	"x\x00../y", "../x\x00", "\x00", "...", ".../x", "..../x", "a/./../../x", "a//../..//x", "sub/../../x", "sub/../../../l5/x",
 	"‥/x", "．．/x", "..\u2215x", "..%2fx", ". ./x", ".. /x", " ../x", "../ x", "a/..", "a/../..", "a/../../", "../arch/../x",
 	strings.Repeat("../", 4) + "x", strings.Repeat("a/", 40) + strings.Repeat("../", 41) + "x", strings.Repeat("n", 300), "../" + strings.Repeat("n", 300),
+	strings.Repeat("a", 210) + "/../../x", strings.Repeat("b/", 120) + strings.Repeat("../", 121) + "x", strings.Repeat("c", 255) + "/../../sibling/x",
 	"-", "~", "~/x", "$HOME/x", "c:/x", "c:\\x", "\\\\host\\share\\x", "con", "good1.dat/../../x", ".hidden", ".hidden/x", "..hidden", "sub/..hidden",
 }
 
@@ -315,6 +343,9 @@ func TestCheck(t *testing.T) {
 					if format == "par2" {
 						do(Case{Format: format, Name: n, Pos: pos, Present: present, Empty: true})
 						do(Case{Format: format, Name: n, Pos: pos, Present: present, MainLast: true})
+						if pos == 0 {
+							do(Case{Format: format, Name: n, Pos: pos, Present: present, UniName: true})
+						}
 					}
 					if format == "par1" {
 						do(Case{Format: format, Name: n, Pos: pos, Present: present, Unsaved: true, Empty: true})
